@@ -50,6 +50,7 @@ class Model(object):
         self.hands = {}  # hand id -> kind (outstanding)
         self.lib_static = None
         self.lib_default = None
+        self.reach = []
 
     # ---- helpers
     def new_obj(self, value, owner="caller", kind="item"):
@@ -82,8 +83,16 @@ class Model(object):
         return hid
 
     def expect(self, res=None):
-        return {"res": res, "live": self.live_values(),
-                "hand": sorted("%d:%s" % (k, v) for k, v in self.hands.items()), "mem_live": 0}
+        e = {"res": res, "live": self.live_values(),
+             "hand": sorted("%d:%s" % (k, v) for k, v in self.hands.items()), "mem_live": 0}
+        if self.reach:
+            e["reach"] = self.reach
+            self.reach = []
+        return e
+
+    def hit(self, what):
+        """Reach probe: a rare but important situation was generated."""
+        self.reach.append(what)
 
     # ---- ops
     def apply(self, op):
@@ -112,7 +121,10 @@ class Model(object):
             return
         o = self.objs[hd["oid"]]
         if o["owner"] == "caller" and o["alive"]:
+            self.hit("python_last_reference_dropped")
             o["alive"] = False  # last reference gone: the finaliser releases the instance
+        elif o["owner"] != "caller":
+            self.hit("python_borrowed_wrapper_dropped")
 
     def fresh(self, oid):
         return {"oid": oid, "released": False}
@@ -134,6 +146,7 @@ class Model(object):
             return self.expect(())
         hd = self.handle(s)
         if hd["released"]:
+            self.hit("delete_again")
             return self.expect(())  # releasing an already released handle does nothing
         o = self.objs[hd["oid"]]
         if not o["alive"]:
@@ -150,12 +163,15 @@ class Model(object):
             raise Invalid("c only")
         hd = self.handle(s)
         if hd["released"]:
+            self.hit("release_again")
             return self.expect(())
         o = self.objs[hd["oid"]]
         if not o["alive"]:
             raise Invalid("release through a dangling copy")
         if o["owner"] == "caller":
             o["alive"] = False
+        else:
+            self.hit("release_library_owned")
         hd["released"] = True  # addr is cleared either way
         return self.expect(())
 
@@ -309,6 +325,8 @@ class Model(object):
         return self.expect((len(REF_STRING), REF_STRING))
 
     def op_str_val(self, n, _b, _t):
+        if n == 0:
+            self.hit("string_zero_length")
         return self.expect((n, pattern(n)))
 
     def op_str_owned(self, n, _b, _t):
@@ -369,6 +387,12 @@ class Model(object):
         return self.expect(())
 
     def op_str_out(self, cap, n, _t):
+        if cap == n:
+            self.hit("string_exact_fit")
+        if n == 0 or cap == 0:
+            self.hit("string_zero_length")
+        if cap < n:
+            self.hit("string_truncated")
         if self.driver == "py":
             return self.expect((n, pattern(n)))
         return self.expect((cap, fpad(pattern(n), cap)))
@@ -436,6 +460,7 @@ class Model(object):
             return self.expect((n, sum(500 + i for i in range(n))))
         old = self.caps[c]
         if old is not None and old in self.hands:
+            self.hit("capsule_reused_while_owning")
             del self.hands[old]  # intent(out) capsule still owning memory: released first
         hid = self.take_hand("intarr")
         self.caps[c] = hid
@@ -531,6 +556,10 @@ class Model(object):
         hid = self.caps[c]
         if hid is not None and hid in self.hands:
             del self.hands[hid]
+        elif hid is not None:
+            self.hit("capsule_delete_again")
+        else:
+            self.hit("capsule_delete_empty")
         return self.expect(())  # deleting an empty / already released capsule does nothing
 
     def op_cap_scope(self, n, _b, _t):
@@ -564,8 +593,14 @@ def gen_op(rng, model, enabled, uniq):
     if name.startswith("leak_"):
         inner = gen_op(rng, model, [name[5:]], uniq)
         return None if inner is None else ["leak_" + inner[0]] + inner[1:]
-    s = rng.randrange(NH)
-    t = rng.randrange(NH)
+    hot = getattr(model, "hot_slots", None)
+    if hot and rng.random() < 0.8:
+        # locality: most ops of a sequence work on a few slots, so that handles meet again
+        s = rng.choice(hot)
+        t = rng.choice(hot)
+    else:
+        s = rng.randrange(NH)
+        t = rng.randrange(NH)
     if name in ("item_val", "make_item", "copy_item", "item_set", "make_box", "box_new"):
         return [name, s, uniq()]
     if name in ("cstr_ref", "cstr_lib"):
@@ -676,10 +711,39 @@ def ops_for(driver):
     return list(OPS_COMMON)
 
 
+def targeted_op(rng, m, enabled, uniq):
+    """An op aimed at the current ownership state: release again what was just released, reuse a
+    capsule that still owns memory, use and release live handles, drop shared references ..."""
+    cands = []
+    for s, hd in enumerate(m.h):
+        if hd is None:
+            continue
+        o = m.objs[hd["oid"]]
+        if hd["released"]:
+            cands += [["item_delete", s], ["item_release", s], ["make_item", s, uniq()], ["borrow_item", s]]
+        elif o["alive"]:
+            cands += [["item_delete", s], ["item_release", s], ["item_value", s], ["item_label", s],
+                      ["use_item", s], ["pass_item", s], ["item_twin", s, rng.randrange(NH)],
+                      ["assign", s, rng.randrange(NH)], ["item_combine", s, s], ["sum_items", s, s],
+                      ["item_set", s, uniq()], ["copy_item", s, uniq()], ["default_item", s], ["ref_item", s]]
+    for s, hd in enumerate(m.bx):
+        if hd is not None:
+            cands += [["box_value", s], ["box_delete", s], ["box_release", s], ["make_box", s, uniq()]]
+    for c, hid in enumerate(m.caps):
+        if hid is not None:
+            cands += [["cap_delete", c], ["cap_delete", c], ["arr_new", lengths(rng), c], ["arr_pat", lengths(rng), c]]
+    cands = [c for c in cands if c[0] in enabled]
+    return rng.choice(cands) if cands else None
+
+
 def gen_sequence(rng, driver, length, enabled=None):
     """A valid op sequence and the model's expectations."""
     enabled = enabled or ops_for(driver)
     m = Model(driver)
+    m.hot_slots = rng.sample(range(NH), rng.choice([1, 2, 2, 3]))
+    # handle ops are always available to the targeted draws, whatever the swarm subset is
+    core = [o for o in ops_for(driver) if o in ("item_delete", "item_release", "cap_delete", "box_delete",
+                                                 "box_release", "make_item", "item_val", "arr_new", "arr_pat")]
     counter = [0]
 
     def uniq():
@@ -690,7 +754,11 @@ def gen_sequence(rng, driver, length, enabled=None):
     tries = 0
     while len(ops) < length and tries < length * 30:
         tries += 1
-        op = gen_op(rng, m, enabled, uniq)
+        op = None
+        if rng.random() < 0.35:
+            op = targeted_op(rng, m, list(enabled) + core, uniq)
+        if op is None:
+            op = gen_op(rng, m, enabled, uniq)
         if op is None:
             continue
         import copy
